@@ -316,8 +316,10 @@ func (w *world) cancelID(id int, fromCallback bool) string {
 				trig = "callback-running"
 			case reg.finished:
 				trig = "callback-finished"
-			case w.isSD:
-				trig = "after-shutdown"
+			case reg.replaced:
+				trig = "refused-reschedule"
+			case reg.sdDropped:
+				trig = "dropped-by-shutdown-flag"
 			case reg.ecancelled:
 				trig = "element-cancelled-directly"
 			default:
